@@ -420,4 +420,6 @@ def load_db(crates=None, repo=None):
         _DB = DB()
     _DB.load(d, crates)
     _DB.load_s = time.time() - t0
+    from . import flow as _flow
+    _flow.CONST_BODIES[0] = lambda name, _db=_DB: (_db.bodies.get(name) if _db.bodies.get(name) is not None and _db.bodies.get(name).kind in ("Const", "AssocConst") else None)
     return _DB
